@@ -83,7 +83,8 @@ def r3(rr, repo):
                 else:
                     ok = 'PUSH' in U(v) and rel == '<'
                 rr.ob('the push socket exists only for ephemeral < 2 (else None)', ok, za.mod, e.node, witness=f'{U(v)[:80]} under {rel}', key='push-create')
-            if e.kind == 'call' and 'zmq.PUSH' in e.term and re.search(r'\)\.(\w+)$', e.term):
+            handed = e.kind == 'call' and any(isinstance(a, ast.Attribute) and 'zmq.PUSH' in U(a) for a in getattr(e.value, 'args', []))      # attach(push.connect, addr): a bound method of the socket handed to a wrapper
+            if (e.kind == 'call' and 'zmq.PUSH' in e.term and re.search(r'\)\.(\w+)$', e.term)) or handed:
                 uses.add(id(e.node))
                 ok = _eph_rel(p.pc[:e.pc_len]) == '<'
                 rr.ob('constructor touches the push socket only under ephemeral < 2', ok, za.mod, e.node, witness=p.pc_text(e.pc_len)[-200:], key='push-use-init')
